@@ -20,7 +20,8 @@ const seedParams = `{"swagger":"2.0","info":{"title":"t","version":"1"},"consume
  "put":{"operationId":"u","consumes":["multipart/form-data"],"parameters":[{"name":"f","in":"formData","type":"file"},{"name":"q","in":"formData","type":"string","minLength":1}],"responses":{"204":{"description":"done"}}}}},
 "responses":{"err":{"description":"error","schema":{"$ref":"#/definitions/Err"}}},
 "definitions":{"Item":{"type":"object","required":["name"],"properties":{"name":{"type":"string","example":"n"},"tags":{"type":"array","items":{"type":"string"}},"n":{"type":"integer","default":3}}},
- "Err":{"allOf":[{"$ref":"#/definitions/Base"},{"type":"object","properties":{"msg":{"type":"string"}}}]},"Base":{"type":"object","properties":{"code":{"type":"integer"}}}}}`
+ "Err":{"allOf":[{"$ref":"#/definitions/Base"},{"type":"object","properties":{"msg":{"type":"string"}}}]},"Base":{"type":"object","properties":{"code":{"type":"integer"}}},
+ "Deep":{"allOf":[{"$ref":"#/definitions/Base"},{"allOf":[{"$ref":"#/definitions/Item"},{"type":"object","properties":{"z":{"type":"string"}}}]}]}}}`
 
 const seedDefs = `{"swagger":"2.0","info":{"title":"t","version":"1"},"paths":{"/d":{"get":{"operationId":"d","responses":{"200":{"description":"ok","schema":{"$ref":"#/definitions/Pet"}}}}}},
 "definitions":{"Pet":{"type":"object","discriminator":"kind","required":["kind","t"],"properties":{"kind":{"type":"string"},"t":{"type":"string","default":"x"},"owner":{"$ref":"#/definitions/Owner"}},"additionalProperties":{"type":"integer"}},
@@ -347,6 +348,26 @@ func singleEdits(seedName, seed string, extraNames bool) []specEdit {
 						return true
 					}); ok {
 						emit("add additionalItems with a default to "+pt, d)
+					}
+				}
+			}
+			// re-target every reference between definitions to every definition: ancestries through
+			// $ref'd and inline allOf members become circular, directly and through a second definition
+			if ref, isStr := n.val.(string); isStr && len(p) > 1 && p[len(p)-1] == "$ref" && p[0] == "definitions" && strings.HasPrefix(ref, "#/definitions/") {
+				if defs, ok := root.(map[string]any)["definitions"].(map[string]any); ok {
+					names := make([]string, 0, len(defs))
+					for k := range defs {
+						names = append(names, k)
+					}
+					sort.Strings(names)
+					for _, nm := range names {
+						target := "#/definitions/" + nm
+						if target == ref {
+							continue
+						}
+						if d, ok := editAt(root, p, func(parent, key any) bool { parent.(map[string]any)["$ref"] = target; return true }); ok {
+							emit(fmt.Sprintf("retarget %s to %s", pt, target), d)
+						}
 					}
 				}
 			}
